@@ -132,7 +132,10 @@ def attribute_name_histories():
     properties) are unsupported verbs like any other: 502, and the session continues"""
     import aioftp
     names = sorted({n for n in dir(aioftp.Server)} | {"connection", "user", "stream", "self", "cls", "lambda", "await"})
-    supported = {v.lower() for v in M.SUPPORTED} if hasattr(M, "SUPPORTED") else set(aioftp.Server([aioftp.User()]).commands_mapping)
+    supported = set(M.KNOWN_VERBS)
+    # (what the server's own table holds beyond the 25 verbs is sent as well: a verb the model does not know is
+    # unsupported)
+    names = sorted(set(names) | set(aioftp.Server([aioftp.User()]).commands_mapping))
     out = []
     for n in names:
         if n.lower() in supported:
